@@ -357,6 +357,11 @@ class ExprMixin:
             if fb is None:
                 return T.lt(self.ALLOC0, x), None
             return T.and_(T.lt(fb[0], x), T.le(x, fb[1])), None
+        if name == 'existing':
+            # existing(x): the object x was allocated before now (at a loop head: before this iteration's allocations)
+            x = self.eval_int(args[0], env)
+            frontier = self.alloc_refs[-1] if self.alloc_refs else self.ALLOC0
+            return T.le(x, frontier), None
         if name == 'visited':
             # visited(m, k): key k has been produced by the range loop over map m that is in progress
             m, tn = self.eval(args[0], env)
